@@ -547,4 +547,51 @@ theorem src_Skip (d : Bytes) (hd : d.length < 4611686018427387904) :
   | err e => rfl
   | panic => rfl
 
+/-! the model has no "out of fuel" outcome -/
+
+theorem skipReadVarint_ne_other (bs : Bytes) : ∀ k acc, skipReadVarint k acc bs ≠ .err .other := by
+  induction bs with
+  | nil => intro k acc; simp [skipReadVarint]
+  | cons b tl ih =>
+    intro k acc
+    rw [skipReadVarint]
+    split
+    · simp
+    · simp only []
+      split
+      · simp
+      · split
+        · simp
+        · exact ih _ _
+
+theorem skipAfter_ne_other (r : Bytes) (c wt d : Nat) : skipAfter r c wt d ≠ .err .other := by
+  unfold skipAfter
+  have := skipReadVarint_ne_other r 0 0
+  repeat' split
+  all_goals first | (rename_i heq; intro h; cases h; exact absurd heq this) | simp
+
+theorem skipLoop_ne_other (fuel : Nat) : ∀ rest c k, skipLoop fuel rest c k ≠ .err .other := by
+  induction fuel with
+  | zero => intro rest c k; simp [skipLoop]
+  | succ f ih =>
+    intro rest c k
+    rw [skipLoop_succ]
+    have h1 := skipReadVarint_ne_other rest 0 0
+    split
+    · simp
+    · split
+      · rename_i e heq; intro h; cases h; exact h1 heq
+      · simp
+      · rename_i wire n rest1 heq
+        have h2 := skipAfter_ne_other rest1 (c + n) (wire % 8) k
+        split
+        · rename_i e heq2; intro h; cases h; exact h2 heq2
+        · simp
+        · split
+          · simp
+          · split
+            · simp
+            · exact ih _ _ _
+
+theorem skip_ne_other (bs : Bytes) : skip bs ≠ .err .other := skipLoop_ne_other _ _ _ _
 end Pulsar
